@@ -1276,6 +1276,11 @@ impl Generatable for Expression
 						cstr!(""),
 					)
 				};
+				// A call must use the calling convention of its callee.
+				unsafe {
+					let callconv = LLVMGetFunctionCallConv(function);
+					LLVMSetInstructionCallConv(result, callconv);
+				}
 				Ok(result)
 			}
 			Expression::InlineBlock { statements, value } =>
